@@ -1558,6 +1558,16 @@ type vfFamBFStep struct {
 	A    int         `json:"a,omitempty"`
 	Add  []vfFamBSec `json:"add,omitempty"`  // remoteOffer: m-sections the remote appends
 	Dirs []string    `json:"dirs,omitempty"` // remoteOffer: direction per existing section, by index ("=" keep, "-" absent)
+	// remoteOffer: local operations between SetRemoteDescription and CreateAnswer
+	Between []vfFamBFLocal `json:"between,omitempty"`
+}
+
+// vfFamBFLocal is a local operation (addTrack | addKind | removeTrack | stop | dc).
+type vfFamBFLocal struct {
+	Op   string `json:"op"`
+	Kind string `json:"kind,omitempty"`
+	Dir  string `json:"dir,omitempty"`
+	A    int    `json:"a,omitempty"`
 }
 
 type vfFamBFCase struct {
@@ -1568,6 +1578,10 @@ type vfFamBFCase struct {
 	AlwaysDC  bool          `json:"always_dc,omitempty"`
 	Initial   vfFamBSDP     `json:"initial"`
 	Steps     []vfFamBFStep `json:"steps"`
+	// Pre: local operations before the first remote offer (transceivers without a mid yet);
+	// FirstBetween: local operations between the first SetRemoteDescription and CreateAnswer
+	Pre          []vfFamBFLocal `json:"pre,omitempty"`
+	FirstBetween []vfFamBFLocal `json:"first_between,omitempty"`
 }
 
 type vfFamBFEvent struct {
@@ -1731,6 +1745,45 @@ func vfFamBRunForeign(v *vfT, c vfFamBFCase, onDesc func(ev vfFamBFEvent)) {
 	usedMids := map[string]bool{} // every mid that ever appeared in a description of this session
 	dead := false                 // a Set*Description call failed: no caller continues from a half-applied exchange
 
+	local := func(step int, op vfFamBFLocal, where string) {
+		var err error
+		switch op.Op {
+		case "addTrack":
+			trackN++
+			var tl TrackLocal
+			if tl, err = vfFamBTrack(c.ME, c.DefaultME, op.Kind, fmt.Sprintf("lt%d", trackN), "ls", ""); err == nil {
+				_, err = pc.AddTrack(tl)
+			}
+			if err == nil && odd {
+				addAfter = true
+			}
+		case "addKind":
+			_, err = pc.AddTransceiverFromKind(vfFamBKind(op.Kind), RTPTransceiverInit{Direction: NewRTPTransceiverDirection(op.Dir)})
+			if err == nil && odd {
+				addAfter = true
+			}
+		case "dc":
+			_, err = pc.CreateDataChannel(fmt.Sprintf("dc%d", step), nil)
+			if err == nil && odd {
+				addAfter = true
+			}
+		case "removeTrack":
+			if s := pc.GetSenders(); len(s) > 0 {
+				err = pc.RemoveTrack(s[op.A%len(s)])
+			}
+		case "stop":
+			if t := pc.GetTransceivers(); len(t) > 0 {
+				err = t[op.A%len(t)].Stop()
+			}
+		}
+		if err != nil {
+			v.Label("op-error:" + op.Op)
+			v.Logf("step %d %s %s: %v", step, where, op.Op, err)
+		} else if where != "" {
+			v.Label("local-op:" + where)
+		}
+	}
+
 	remoteOffer := func(step int, st *vfFamBFStep) {
 		if pc.SignalingState() != SignalingStateStable {
 			v.Label("skip:not-stable")
@@ -1782,6 +1835,13 @@ func vfFamBRunForeign(v *vfT, c vfFamBFCase, onDesc func(ev vfFamBFEvent)) {
 		if vfFamBMidsOdd(mids) {
 			odd = true
 		}
+		between := c.FirstBetween
+		if st != nil {
+			between = st.Between
+		}
+		for _, op := range between {
+			local(step, op, "between-setremote-and-createanswer")
+		}
 		ans, err := pc.CreateAnswer(nil)
 		if err != nil {
 			v.Label("create-answer-error")
@@ -1821,6 +1881,9 @@ func vfFamBRunForeign(v *vfT, c vfFamBFCase, onDesc func(ev vfFamBFEvent)) {
 		}
 	}
 
+	for _, op := range c.Pre {
+		local(-1, op, "before-first-remote-offer")
+	}
 	remoteOffer(-1, nil)
 	for i := range c.Steps {
 		if dead {
@@ -1828,7 +1891,6 @@ func vfFamBRunForeign(v *vfT, c vfFamBFCase, onDesc func(ev vfFamBFEvent)) {
 			return
 		}
 		st := &c.Steps[i]
-		var err error
 		switch st.Op {
 		case "remoteOffer":
 			remoteOffer(i, st)
@@ -1914,37 +1976,8 @@ func vfFamBRunForeign(v *vfT, c vfFamBFCase, onDesc func(ev vfFamBFEvent)) {
 				remote.Sections = append(remote.Sections, m)
 			}
 			remote.SessVer = ans.SessVer
-		case "addTrack":
-			trackN++
-			var tl TrackLocal
-			if tl, err = vfFamBTrack(c.ME, c.DefaultME, st.Kind, fmt.Sprintf("lt%d", trackN), "ls", ""); err == nil {
-				_, err = pc.AddTrack(tl)
-			}
-			if err == nil && odd {
-				addAfter = true
-			}
-		case "addKind":
-			_, err = pc.AddTransceiverFromKind(vfFamBKind(st.Kind), RTPTransceiverInit{Direction: NewRTPTransceiverDirection(st.Dir)})
-			if err == nil && odd {
-				addAfter = true
-			}
-		case "dc":
-			_, err = pc.CreateDataChannel(fmt.Sprintf("dc%d", i), nil)
-			if err == nil && odd {
-				addAfter = true
-			}
-		case "removeTrack":
-			if s := pc.GetSenders(); len(s) > 0 {
-				err = pc.RemoveTrack(s[st.A%len(s)])
-			}
-		case "stop":
-			if t := pc.GetTransceivers(); len(t) > 0 {
-				err = t[st.A%len(t)].Stop()
-			}
-		}
-		if err != nil {
-			v.Label("op-error:" + st.Op)
-			v.Logf("step %d %s: %v", i, st.Op, err)
+		case "addTrack", "addKind", "dc", "removeTrack", "stop":
+			local(i, vfFamBFLocal{Op: st.Op, Kind: st.Kind, Dir: st.Dir, A: st.A}, "")
 		}
 	}
 }
@@ -2037,6 +2070,33 @@ func vfFamBGenForeign(r *rapid.T, dirFocus bool) vfFamBFCase {
 	c.Initial = all
 	c.Initial.Sections = append([]vfFamBSec{}, all.Sections[:nInit]...)
 	later := all.Sections[nInit:]
+	genLocal := func(label string) vfFamBFLocal {
+		op := vfFamBFLocal{Op: rapid.SampledFrom([]string{"addTrack", "addTrack", "addKind", "addKind", "removeTrack"}).Draw(r, label+"Op")}
+		switch op.Op {
+		case "addTrack":
+			op.Kind = rapid.SampledFrom([]string{"audio", "video"}).Draw(r, label+"Kind")
+		case "addKind":
+			op.Kind = rapid.SampledFrom([]string{"audio", "video"}).Draw(r, label+"Kind")
+			op.Dir = rapid.SampledFrom([]string{"recvonly", "recvonly", "sendrecv", "sendonly"}).Draw(r, label+"Dir")
+		default:
+			op.A = rapid.IntRange(0, 5).Draw(r, label+"A")
+		}
+		return op
+	}
+	if dirFocus {
+		// transceivers that exist (without a mid) before the first remote offer, and local
+		// operations that fall between SetRemoteDescription and CreateAnswer
+		for k := rapid.IntRange(0, 3).Draw(r, "nPre"); k > 0; k-- {
+			op := genLocal("pre")
+			if op.Op == "removeTrack" {
+				op = vfFamBFLocal{Op: "addKind", Kind: "video", Dir: "recvonly"}
+			}
+			c.Pre = append(c.Pre, op)
+		}
+		for k := rapid.IntRange(0, 2).Draw(r, "nFirstBetween"); k > 0; k-- {
+			c.FirstBetween = append(c.FirstBetween, genLocal("firstBetween"))
+		}
+	}
 	n := rapid.IntRange(2, 8).Draw(r, "nSteps")
 	ops := []string{"remoteOffer", "localOffer", "localOffer", "addTrack", "addKind", "dc", "dc", "removeTrack", "stop"}
 	if dirFocus {
@@ -2062,6 +2122,11 @@ func vfFamBGenForeign(r *rapid.T, dirFocus bool) vfFamBFCase {
 					st.Dirs = append(st.Dirs, rapid.SampledFrom([]string{"sendrecv", "sendonly", "recvonly", "inactive", "=", "="}).Draw(r, "newDir"))
 				} else {
 					st.Dirs = append(st.Dirs, "=")
+				}
+			}
+			if dirFocus {
+				for k := rapid.IntRange(0, 3).Draw(r, "nBetween"); k > 1; k-- {
+					st.Between = append(st.Between, genLocal("between"))
 				}
 			}
 		case "addTrack":
@@ -2219,14 +2284,55 @@ func vfFamBRunPair(v *vfT, c vfFamBPCase, onDesc func(ev vfFamBPEvent), onStep f
 }
 
 // vfFamBGenPair draws a pair history with minRounds..maxRounds negotiate ops spread over it.
-func vfFamBGenPair(r *rapid.T, minRounds, maxRounds int, customME bool) vfFamBPCase {
+// asym: the peers get different codec sets (audio-only, video-only, single codec), so that one
+// side rejects m-sections the other offers.
+func vfFamBGenPair(r *rapid.T, minRounds, maxRounds int, customME bool, asym bool) vfFamBPCase {
 	var c vfFamBPCase
+	kinds := [2][]string{{"audio", "video"}, {"audio", "video"}}
 	for i := 0; i < 2; i++ {
 		s := vfFamBPSide{Sem: rapid.IntRange(0, 1).Draw(r, "sem"), MediaFP: rapid.Bool().Draw(r, "mediaFP"), AlwaysDC: rapid.IntRange(0, 5).Draw(r, "alwaysDC") == 0}
 		if customME && rapid.IntRange(0, 1).Draw(r, "customME") == 0 {
 			s.ME = vfFamBGenME(r, vfFamBMEGenOpts{NeedAudio: true, NeedVideo: true, Remap: true, Exts: true, FEC: true})
 		} else {
 			s.DefaultME = true
+		}
+		if asym {
+			switch mode := rapid.IntRange(0, 5).Draw(r, "asymME"); mode {
+			case 0, 1, 2, 3:
+				full := s.ME
+				if s.DefaultME {
+					full = vfFamBDefaultME()
+				}
+				keepKind := "audio"
+				if mode == 1 || mode == 3 {
+					keepKind = "video"
+				}
+				var keep []vfFamBMECodec
+				for _, cd := range full.Codecs {
+					if cd.Kind == keepKind {
+						keep = append(keep, cd)
+					}
+				}
+				if mode >= 2 && len(keep) > 0 { // single codec (plus its rtx)
+					first := keep[0]
+					for _, cd := range keep {
+						if !strings.EqualFold(cd.Mime, MimeTypeRTX) {
+							first = cd
+							break
+						}
+					}
+					one := []vfFamBMECodec{first}
+					for _, cd := range keep {
+						if strings.EqualFold(cd.Mime, MimeTypeRTX) && cd.Fmtp == "apt="+strconv.Itoa(int(first.PT)) {
+							one = append(one, cd)
+						}
+					}
+					keep = one
+				}
+				s.DefaultME = false
+				s.ME = vfFamBMECfg{Codecs: keep, Exts: full.Exts, Interceptors: full.Interceptors}
+				kinds[i] = []string{keepKind}
+			}
 		}
 		c.Sides[i] = s
 	}
@@ -2235,13 +2341,23 @@ func vfFamBGenPair(r *rapid.T, minRounds, maxRounds int, customME bool) vfFamBPC
 	// something to negotiate first
 	pre := rapid.IntRange(1, 3).Draw(r, "preOps")
 	genLocal := func() vfFamBPOp {
-		op := vfFamBPOp{Op: rapid.SampledFrom([]string{"addTrack", "addTrack", "addKind", "addKind", "dc", "removeTrack", "stop"}).Draw(r, "op"), Peer: rapid.IntRange(0, 1).Draw(r, "peer")}
+		opNames := []string{"addTrack", "addTrack", "addKind", "addKind", "dc", "removeTrack", "stop"}
+		dirs := []string{"sendrecv", "sendonly", "recvonly"}
+		if asym {
+			// receive-only transceivers survive a rejection by the other side (a sender whose
+			// section is rejected makes SetRemoteDescription fail and ends the history)
+			opNames = []string{"addKind", "addKind", "addKind", "addKind", "addTrack", "dc", "removeTrack", "stop"}
+			dirs = []string{"recvonly", "recvonly", "recvonly", "sendrecv", "sendonly"}
+		}
+		op := vfFamBPOp{Op: rapid.SampledFrom(opNames).Draw(r, "op"), Peer: rapid.IntRange(0, 1).Draw(r, "peer")}
 		switch op.Op {
 		case "addTrack":
-			op.Kind = rapid.SampledFrom([]string{"audio", "video"}).Draw(r, "kind")
+			op.Kind = rapid.SampledFrom(kinds[op.Peer]).Draw(r, "kind")
 		case "addKind":
 			op.Kind = rapid.SampledFrom([]string{"audio", "video"}).Draw(r, "kind")
-			op.Dir = rapid.SampledFrom([]string{"sendrecv", "sendonly", "recvonly"}).Draw(r, "dir")
+			if op.Dir = rapid.SampledFrom(dirs).Draw(r, "dir"); op.Dir != "recvonly" {
+				op.Kind = rapid.SampledFrom(kinds[op.Peer]).Draw(r, "sendKind")
+			}
 		case "removeTrack", "stop":
 			op.A = rapid.IntRange(0, 5).Draw(r, "a")
 		}
@@ -2252,7 +2368,7 @@ func vfFamBGenPair(r *rapid.T, minRounds, maxRounds int, customME bool) vfFamBPC
 		if i == 0 {
 			op.Peer = offerer // the first offer must not be empty
 			if op.Op == "removeTrack" || op.Op == "stop" {
-				op.Op, op.Kind = "addTrack", "audio"
+				op.Op, op.Kind = "addTrack", kinds[offerer][0]
 			}
 		}
 		c.Ops = append(c.Ops, op)
